@@ -14,12 +14,18 @@
    (C08_getctype_is_spec); the two getctype implementations and model.get_c_name (third copy of the logic,
    on the Python type objects) produce the same text for all T and x (C08_getctype_c_eq_py,
    C08_get_c_name_eq_getctype); the marker test of FFI.getctype holds exactly for arrays (C08_marker_test).
-   PARTIAL / MISSING: the re-parsing half (parse (cname T) = T) needs the parser model of C07, whose
-   agreement theorem covers primitive/pointer/array/grouping types only; it is checked by the
-   correspondence runs (both FFIs, gcc) and not proved here. *)
+   RE-PARSING HALF, PARTIAL: C08_reparse_keyword_types / C08_typeof_getctype_keyword_types prove the first
+   sentence of the property, typeof(getctype(T)) = T, for the C-side parser (parse_c_type.c + realize, model
+   of coq/C07, imported read-only; composition with C07.Agree.agree_partial) on the class named
+   Proofs5.kw_type: void and the keyword primitives _Bool ... long double, pointers, arrays with a length,
+   in any nesting (exactly the part of C07's sub-grammar that ct_name can print; qualifiers never appear in
+   a ct_name).  MISSING: function types, *_t / typedef / struct / union / enum names, open arrays, the
+   Python-side parser (C07_agree_partial relates it to the C side on the same class), and getctype(T, x) with a
+   non-empty x.  Those are decided by the correspondence runs (both FFIs, gcc). *)
 From Coq Require Import List Arith NArith ZArith Lia Bool String.
 Import ListNotations.
 From Cffi Require Import C07.Model C07.Realize C08.Gen C08.Model C08.Proofs C08.Spec C08.Proofs2 C08.Proofs3 C08.Proofs4.
+From Cffi Require C07.PyModel C07.Tables C07.Sequel C07.Sequel2 C07.Agree C08.Proofs5.
 
 (* ct_name_position never points outside the name *)
 Theorem C08_position_in_range : forall T, (snd (cname T) <= List.length (fst (cname T)))%nat.
@@ -107,6 +113,48 @@ Example C08_example_lengths :
   fst (cname (CPtr (CArr (CPrim 2) (Some 10000000000000%Z)))) = s2l "char(*)[10000000000000]" /\
   array_extra_bytes 10000000000000 = 17%Z /\ array_extra_bytes (2 ^ 64 - 1) = 23%Z.
 Proof. vm_compute. repeat split; reflexivity. Qed.
+
+(* the property's first sentence as a theorem, on the class `kw_type` (keyword primitives, pointers, arrays):
+   the C parser reads ct_name / getctype(T, "") back as T.  `syn T = Some (p, s)` names the class (it holds for every
+   T with kw_type T = true, C08_reparse_class); `build (mty_of T) = Some (RT T)` says that T is a type the backend
+   can build (e.g. no array of void, total size within Py_ssize_t); osz and 999 are the parser's output-buffer size
+   and nesting limit. *)
+Theorem C08_reparse_keyword_types : forall (g : genv) (osz : nat) T p s,
+  Proofs5.syn T = Some (p, s) ->
+  build (Proofs5.mty_of T) = Some (RT T) ->
+  Tables.table_ok (map fst (g_globals g)) ->
+  (S (Sequel.nops (Proofs5.to_decl s)) <= osz)%nat -> (Sequel2.cost (Proofs5.to_decl s) < 999)%nat ->
+  c_typeof osz g (fst (cname T)) = Some T.
+Proof. exact Proofs5.reparse_keyword_types. Qed.
+Print Assumptions C08_reparse_keyword_types.
+
+Theorem C08_typeof_getctype_keyword_types : forall (g : genv) (osz : nat) T p s,
+  Proofs5.syn T = Some (p, s) -> build (Proofs5.mty_of T) = Some (RT T) ->
+  Tables.table_ok (map fst (g_globals g)) ->
+  (S (Sequel.nops (Proofs5.to_decl s)) <= osz)%nat -> (Sequel2.cost (Proofs5.to_decl s) < 999)%nat ->
+  c_typeof osz g (getctype_c T []) = Some T.
+Proof. exact Proofs5.typeof_getctype_keyword_types. Qed.
+Print Assumptions C08_typeof_getctype_keyword_types.
+
+Theorem C08_reparse_class : forall T, Proofs5.kw_type T = true -> exists p s, Proofs5.syn T = Some (p, s).
+Proof. exact Proofs5.syn_total. Qed.
+Print Assumptions C08_reparse_class.
+
+(* non-vacuity of the re-parsing theorem: array of 16 pointers to arrays of 3 pointers to unsigned long,
+   empty declaration context *)
+Example C08_example_reparse :
+  let T := CArr (CPtr (CArr (CPtr (CPrim 10)) (Some 3%Z))) (Some 16%Z) in
+  let g := mkGenv [] [] [] [] in
+  Proofs5.kw_type T = true /\
+  fst (cname T) = s2l "unsigned long *(" ++ s2l "*[16])[3]" /\
+  (exists p s, Proofs5.syn T = Some (p, s) /\ build (Proofs5.mty_of T) = Some (RT T) /\
+               (S (Sequel.nops (Proofs5.to_decl s)) <= 100)%nat /\ (Sequel2.cost (Proofs5.to_decl s) < 999)%nat) /\
+  c_typeof 100 g (fst (cname T)) = Some T.
+Proof.
+  cbv zeta. split; [reflexivity|]. split; [vm_compute; reflexivity|]. split.
+  - eexists _, _. split; [vm_compute; reflexivity|]. split; [vm_compute; reflexivity|]. split; vm_compute; lia.
+  - vm_compute. reflexivity.
+Qed.
 
 (* non-vacuity *)
 Example C08_example :
